@@ -12,6 +12,10 @@ Streams:
   malformed  mutated tables (stray braces, bad arity, unknown commands, legacy lines, odd spellings):
              accept/raise and, when both accept, the actions and the parsed block structure are compared
   cond       token soups through VersionParser.eval: the python value is compared
+  argtext    texts between the parentheses of a command (argument lists printed from the documented grammar,
+             escaped quotes included, and soups of quotes, escaped quotes, backslashes, blanks, commas):
+             classify_argtext says whether the text is inside the documented argument grammar and, if so, which
+             arguments it denotes (the ORACLE for those); model and implementation are compared on all of them
 """
 import json
 import os
@@ -57,7 +61,19 @@ KINDS = {
 VARS = ["PATH", "LD_LIBRARY_PATH", "PYTHONPATH", "FOO_OPTS", "X"]
 WORDS = ["/opt/x/bin", "${PRODUCT_DIR}/bin", "lib", "a.b+c", "1.2", "v1_0", "-O2", "${HOME}/x:y", "(p)", "k=v"]
 SPACEY = ["two words", "a, b", "x,y", " lead", "trail ", "a  b", "-I/x -I/y", "c, d e", "a, ", "x,", " "]
+# values containing the double quote (written backslash-quote in the table): at both ends of a bare word, at one
+# end, in the middle, next to a comma or blank inside a quoted value, alone
+QWORDS = ['"$@"', '"hello"', '-DNAME="x"', '"-Wall"', '"x', 'y"', '"', '""', 'a"b', '"$@"`;', '"${HOME}/x"']
+QSPACEY = ['say "hi" twice', 'ls -l "$@"', '"a b"', 'x ", " y', '" "', '"a", "b"', 'echo "a,b" c', '" lead', 'trail "',
+           '", "', 'a ", b', '"a b" "c d"']
 PRODUCTS = ["bar", "baz", "numpy", "afw"]
+# the example of the manual: addAlias(foo, source `${PRODUCT_DIR}/bin/eups_setup setup \"$@\"`;);
+MANUAL_ALIAS = ["foo", "source", "`${PRODUCT_DIR}/bin/eups_setup", "setup", '"$@"`;']
+
+
+def esc(a):
+    """how a value is written: its double quotes escaped"""
+    return a.replace('"', '\\"')
 
 
 def den_cond(c, fl, ty):
@@ -216,7 +232,12 @@ def g_cond(rng, depth, flavors, types):
 
 
 def g_value(rng):
-    return rng.choice(WORDS) if rng.random() < 0.6 else rng.choice(SPACEY)
+    r = rng.random()
+    if r < 0.5:
+        return rng.choice(WORDS)
+    if r < 0.78:
+        return rng.choice(SPACEY)
+    return rng.choice(QWORDS) if r < 0.9 else rng.choice(QSPACEY)
 
 
 def g_cmd(rng):
@@ -228,16 +249,19 @@ def g_cmd(rng):
     elif kind in ("setupRequired", "setupOptional", "unsetupRequired", "unsetupOptional"):
         args = [rng.choice(PRODUCTS)] + rng.choice([[], ["1.2"], [">=", "1.0"], ["-j", "v2"], ["1.0", "[>= 1.0]"]])
     elif kind == "addAlias":
-        args = [rng.choice(["ll", "go"]), rng.choice(["ls -l", "cd ${PRODUCT_DIR}", "x"])]
+        args = rng.choice([[rng.choice(["ll", "go"]), rng.choice(["ls -l", "cd ${PRODUCT_DIR}", "x"])],
+                           ["runit", "run", '"$@"'], ["ll", 'ls -l "$@"'], list(MANUAL_ALIAS), ["q", '"$@"'],
+                           [rng.choice(["ll", "go"]), g_value(rng)]])
     elif kind == "declareOptions":
         args = [rng.choice(["flavor=NULL", "name=x"])]
     elif kind == "print":
-        args = [rng.choice(["hello", "msg"])] + rng.choice([[], ["hello, world"], ["a b"]])
+        args = [rng.choice(["hello", "msg"])] + rng.choice([[], ["hello, world"], ["a b"], ['"quoted"'], ['say "hi"', '"'],
+                                                            [g_value(rng), g_value(rng)]])
     elif kind == "envUnset":
         args = ["PRODUCT_DIR"]
     else:
         args = []
-    pargs = list(args)
+    pargs = [esc(a) for a in args]
     q = []
     for i, a in enumerate(args):
         must = (" " in a) or ("," in a) or a == ""
@@ -319,7 +343,7 @@ def canonical_layout(items):
         return ["bin", c[1], ccond(c[2]), ccond(c[3]), {"s1": 1, "s2": 1}]
 
     def ccmd(c):
-        q = [bool(i > 0 and ((" " in a) or ("," in a) or a == "")) for i, a in enumerate(c["pargs"])]
+        q = [bool(i > 0 and ((" " in a) or ("," in a) or a == "")) for i, a in enumerate(c["args"])]
         return {"kind": c["kind"], "args": c["args"], "pargs": c["pargs"],
                 "lay": {"spell": c["kind"], "indent": "", "sp": "", "lead": "", "trail": "", "q": q,
                         "seps": [", "] * max(0, len(c["pargs"]) - 1), "semi": "", "after": "", "junk": []}}
@@ -395,7 +419,13 @@ MAL_LINES = ["}", "} else {", "} else if (FLAVOR == Linux64) {", "if (FLAVOR == 
              "if (True) {", "if (False || FLAVOR != Linux) {", "if (!(FLAVOR == Linux64)) {", "if (not FLAVOR == Linux64) {",
              "if (FLAVOR == Linux64 or TYPE == build) {", "if (FLAVOR == Linux64 and TYPE == build) {",
              "if (1 == 01 && FLAVOR == Linux64) {", "if (FLAVOR == Linux64 TYPE) {", "IF (flavor == Linux64) {",
-             "print(x\ty)", "envSet(A,\tb)", "   ", "print(a)) ;", "print((a)", "envSet(A, 'b c')"]
+             "print(x\ty)", "envSet(A,\tb)", "   ", "print(a)) ;", "print((a)", "envSet(A, 'b c')",
+             # escaped and unescaped quotes, inside and outside the documented grammar
+             "envSet(G, \\\"hello\\\")", "addAlias(runit, run \\\"$@\\\")", "envSet(A, \\\"b c\\\")",
+             "print(\\\"a\\\", \\\"b\\\")", "print(\"\\\"\", \\\")", "print(a\"b c\"d)", "print(\"a\" \"b\")",
+             "print(\"a\\\")", "print(a\\\\\"b)", "print(\"a\"b)", "print(\\\"a b\", c)", "print(\"a b\\\", c\")",
+             "print(\"\\\"a, b\\\"\")", "envAppend(C, \\\"-Wall\\\", \" \")", "print(\\\"\\\")", "print(\\a\\)",
+             "print(\"\\\"x\\\"\")", "addAlias(foo, source `${PRODUCT_DIR}/bin/eups_setup setup \\\"$@\\\"`;);"]
 
 
 def g_malformed(rng):
@@ -432,6 +462,150 @@ def g_condcase(rng):
         text = "".join(rng.choice(COND_TOKS) + rng.choice(["", " ", " ", "  "]) for _ in range(rng.choice([1, 2, 3, 4, 5, 7, 9])))
     return {"stream": "cond", "text": text, "flavor": rng.choice(FLAVORS + [OTHER_FLAVOR]),
             "types": rng.choice([[], ["build"], ["build", "exact"], [OTHER_TYPE]])}
+
+
+# ---- argument texts
+
+ARG_BAD = set("#\\\n\r\x01\x02\x03")
+PYSPACE = set(" \t\n\r\x0b\x0c\x1c\x1d\x1e\x1f")
+
+
+def classify_argtext(t):
+    """The documented argument grammar, stated independently of eups and of the model:
+
+        text   := blanks [ bare ( sep value )* ] blanks          blanks = spaces
+        value  := bare | quote qchar+ quote                      the first value is bare
+        bare   := bchar+
+        sep    := spaces with at most one comma, not empty
+        bchar  := backslash quote (denotes a quote) | any character but blank, comma, quote, BAD
+        qchar  := backslash quote (denotes a quote) | space | comma | any character but other blanks, quote, BAD
+        BAD    := hash, backslash, line ends, the characters 1-3, anything not ASCII
+
+    Returns ("inside", values) with the values the text denotes, or ("outside", reason): nothing is claimed
+    about such a text (the model and eups are still compared on it)."""
+    n = len(t)
+    if any(ord(ch) > 126 for ch in t):
+        return ("outside", "not-ascii")
+    i = 0
+    while i < n and t[i] == " ":
+        i += 1
+    if i == n:
+        return ("inside", [])
+    vals = []
+    while True:
+        v = ""
+        if t[i] == '"':
+            if not vals:
+                return ("outside", "quoted-first-value")
+            i += 1
+            while True:
+                if i >= n:
+                    return ("outside", "unbalanced-quote")
+                ch = t[i]
+                if ch == '"':
+                    i += 1
+                    break
+                if ch == "\\":
+                    if t[i + 1:i + 2] == '"':
+                        v += '"'
+                        i += 2
+                        continue
+                    return ("outside", "backslash")
+                if ch in ARG_BAD or (ch in PYSPACE and ch != " "):
+                    return ("outside", "character")
+                v += ch
+                i += 1
+            if v == "":
+                return ("outside", "empty-quoted-value")
+            if i < n and t[i] not in " ,":
+                return ("outside", "text-after-closing-quote")
+        else:
+            while i < n and t[i] not in " ,":
+                ch = t[i]
+                if ch == '"':
+                    return ("outside", "unescaped-quote-in-word")
+                if ch == "\\":
+                    if t[i + 1:i + 2] == '"':
+                        v += '"'
+                        i += 2
+                        continue
+                    return ("outside", "backslash")
+                if ch in ARG_BAD or ch in PYSPACE:
+                    return ("outside", "character")
+                v += ch
+                i += 1
+            if v == "":
+                return ("outside", "empty-value")
+        vals.append(v)
+        j, commas = i, 0
+        while j < n and t[j] in " ,":
+            commas += t[j] == ","
+            j += 1
+        if j == n:
+            return ("outside", "trailing-comma") if commas else ("inside", vals)
+        if commas > 1:
+            return ("outside", "empty-value")
+        i = j
+
+
+ARG_CHARS = ["a", "b", "x", "$@", "-D", "=", "/", ".", "`", ";", "(", ")", "'", "{", "}", "1"]
+ARG_SOUP = ['\\"', '\\"', '\\"', '"', '"', " ", " ", ",", ", ", "\\", "\\\\", "\t", "a", "b c", "$@", "x", "-D=", ";", ")", "(",
+            "`", "''", '""', '" "', "\x01"]
+ARG_CMDS = ["print", "addAlias", "declareOptions"]
+
+
+def g_argvalue(rng, quoted):
+    n = rng.choice([1, 1, 2, 2, 3, 4])
+    out = ""
+    for _ in range(n):
+        r = rng.random()
+        if r < 0.4:
+            out += '"'
+        elif quoted and r < 0.6:
+            out += rng.choice([" ", " ", ",", ", "])
+        else:
+            out += rng.choice(ARG_CHARS)
+    return out
+
+
+def g_argtext(rng):
+    """half: an argument list of the grammar, printed (quotes at the ends of words, alone, next to separators);
+    half: a soup"""
+    cmd = rng.choice(ARG_CMDS)
+    if rng.random() < 0.55:
+        vals = [rng.choice(["A", "name", g_argvalue(rng, False)])]
+        t = rng.choice(["", "", " "]) + esc(vals[0])
+        for _ in range(rng.choice([0, 1, 1, 2, 3])):
+            q = rng.random() < 0.45
+            v = g_argvalue(rng, q)
+            vals.append(v)
+            t += rng.choice([", ", ",", " ", " , ", "  "]) + ('"' + esc(v) + '"' if q else esc(v))
+        t += rng.choice(["", "", " "])
+    else:
+        t = "".join(rng.choice(ARG_SOUP) for _ in range(rng.choice([1, 2, 3, 4, 5, 6, 8])))
+    return argtext_case(cmd, t)
+
+
+def argtext_case(cmd, t):
+    return {"stream": "argtext", "cmd": cmd, "arg": t, "text": "%s(%s)\n" % (cmd, t), "envs": [["Linux64", []]]}
+
+
+def arg_shape(vals, t):
+    """where the quotes of the values stand (for the evidence histogram)"""
+    tags = set()
+    for k, v in enumerate(vals):
+        if '"' not in v:
+            continue
+        quoted = ('"' + esc(v) + '"') in t and k > 0 and ((" " in v) or ("," in v))
+        if quoted:
+            tags.add("dq-in-quoted")
+        elif len(v) > 1 and v[0] == '"' and v[-1] == '"':
+            tags.add("dq-both-ends")
+        elif v[0] == '"' or v[-1] == '"':
+            tags.add("dq-one-end")
+        else:
+            tags.add("dq-middle")
+    return "+".join(sorted(tags)) or "no-dq"
 
 
 # ------------------------------------------------------------------ model side
@@ -699,6 +873,9 @@ def compare(ctx, cases, shrink=True):
             if c["stream"] == "malformed":
                 lines.append("\t".join(["blocks", FX, enc(c.get("top", TOP)), enc(c["text"])]))
                 idx.append((n, "blocks"))
+            if c["stream"] == "argtext":
+                lines.append("\t".join(["aclass", enc(c["arg"])]))
+                idx.append((n, "aclass"))
     mout = ctx.model(lines)
     r = common.in_child(impl_batch, cases, timeout=600, environ=common.scrubbed_environ())
     if r[0] != "ok":
@@ -706,8 +883,12 @@ def compare(ctx, cases, shrink=True):
     ires = r[1]
     per = {}
     for (n, what), l in zip(idx, mout):
-        per.setdefault(n, {"env": [], "blocks": None, "cond": None})
-        if what == "env":
+        per.setdefault(n, {"env": [], "blocks": None, "cond": None, "aclass": None})
+        if what == "aclass":
+            f = l.split("\t")
+            per[n]["aclass"] = (["inside", common.dec_list(",", f[1]) if len(f) > 1 else []] if f[0] == "in" else
+                                ["outside"] if f[0] == "out" else ["DRIVER:" + l])
+        elif what == "env":
             per[n]["env"].append(model_table_result(l))
         elif what == "blocks":
             per[n]["blocks"] = model_blocks_result(l)
@@ -732,6 +913,27 @@ def compare(ctx, cases, shrink=True):
                 ctx.disagree({"stream": c["stream"], "text": c["text"]}, m["blocks"], i.get("blocks"), "Table._actions")
             else:
                 ctx.traces_validated += 1
+            continue
+        if c["stream"] == "argtext":
+            cls, val = classify_argtext(c["arg"])
+            # the recogniser of the specification (args_class, Props/C11.v args_text_sound) and the one stated here
+            # must agree on what is inside the grammar and on the values denoted
+            if m["aclass"] != (["inside", val] if cls == "inside" else ["outside"]):
+                ctx.disagree({"stream": "argtext", "arg": c["arg"]}, m["aclass"], [cls, val],
+                             "args_class (Coq) vs classify_argtext (harness)")
+            if cls == "outside":
+                ctx.count(1, key="argtext/outside/" + val, nontrivial=("arg", c["text"]))
+                continue
+            ctx.count(1, key="argtext/inside/%s/n=%d" % (arg_shape(val, c["arg"]), min(len(val), 4)),
+                      nontrivial=("arg", c["text"]) if val else None)
+            exp = [[KINDS[c["cmd"]][0], list(val), dict(KINDS[c["cmd"]][1])]]
+            obs = i["per_env"][0]
+            if obs.get("actions") != exp:
+                ctx.fail("wrong-arguments" if "actions" in obs else "raised",
+                         {"stream": "argtext", "cmd": c["cmd"], "arg": c["arg"], "text": c["text"], "envs": c["envs"]},
+                         expected=exp, observed=obs,
+                         what="%s(%s): the text denotes the arguments %s, eups gives %s" %
+                              (c["cmd"], c["arg"], json.dumps(val), json.dumps(obs.get("actions", obs))))
             continue
         if c["stream"] == "legacy":
             ctx.count(len(c["envs"]), key="legacy/%s/groups=%d" % (c["ast"]["style"], len(c["ast"]["groups"])),
@@ -832,14 +1034,25 @@ def setup(ctx):
                 "condition with <= 2 operators over three atoms, all parenthesisations); plus legacy files (new-style Flavor= groups and old-style "
                 "Group:/Flavor=/Common:/End: blocks with 1-3 flavors each, oracle: the body applies iff the flavor is listed); "
                 "plus a malformed stream (accept/raise, "
-                "actions and parsed block structure) and a condition token-soup stream (python value of eval). "
+                "actions and parsed block structure) and a condition token-soup stream (python value of eval); "
+                "values include the double quote, written backslash-quote: at both ends of a bare word, at one end, in the "
+                "middle, inside quoted values next to blanks and commas, alone, and the addAlias example of the manual; "
+                "plus an argument-text stream (argument lists of the grammar with quotes in every position, and soups of "
+                "quotes, escaped quotes, backslashes, blanks, commas) classified inside / outside the documented argument "
+                "grammar by classify_argtext: inside, the oracle is the list of values the text denotes; outside (counted "
+                "under argtext/outside/<reason>), model and implementation are compared and nothing is claimed. "
                 "A table case is non-trivial when it has at least one chain; distinct = distinct text")
     ctx.trusted_base = common.COMMON_TRUSTED + [
         "modelled, not verified: python re (the eight patterns of VersionParser.__init__, Table._read and Table._rewrite, "
         "on ASCII text), str.lower/upper/replace, int(), list +=, open() universal newlines",
-        "harness/c11.py: printers of the AST, the python denotation den_items/den_cond/den_cmd used as oracle"]
+        "harness/c11.py: printers of the AST, the python denotation den_items/den_cond/den_cmd used as oracle, "
+        "classify_argtext (the argument grammar as a recogniser, oracle of the argtext stream)"]
     ctx.assumptions = [
-        "table text is ASCII; no carriage returns; values contain no double quote, backslash, hash or control characters 1-3",
+        "table text is ASCII; no carriage returns; values contain no backslash, hash or control characters 1-3; a double "
+        "quote of a value is written backslash-quote",
+        "outside the argument grammar (classified, counted, compared, not claimed): a backslash that does not escape a "
+        "quote, an unescaped quote inside a word or text glued to a closing quote, an unbalanced quote, the empty quoted "
+        "value, a quoted first value, two commas in one separator or a trailing comma, blanks other than the space",
         "the first argument of a command is an unquoted identifier (a quoted first argument is read by eups as a quoted "
         "whole-argument string)",
         "unquoted arguments contain no blank or comma; quoted arguments are non-empty",
@@ -870,6 +1083,8 @@ def run(ctx):
         cases.append(g_malformed(ctx.rng))
     for _ in range(ctx.size(1500, 60000)):
         cases.append(g_condcase(ctx.rng))
+    for _ in range(ctx.size(1500, 60000)):
+        cases.append(g_argtext(ctx.rng))
     for c in cases[:3]:
         ctx.sample({"text": c["text"], "envs": c.get("envs")})
     ctx.exhaustive = False
